@@ -529,9 +529,10 @@ class Parser:
             self.pop_token()
             self.expect_number()
             token = self.pop_token()
-            version = int(token.value)
-            if not (0 < version <= VERSION):
+            if not (0 < token.value <= VERSION):
                 raise InvalidNumericValue(token, f"Expected 0 < value <= {VERSION}!")
+
+            version = int(token.value)
 
             self.expect(Exclamation)
             self.pop_token()
